@@ -6,9 +6,40 @@ From IpfsLog Require Import Model.System Proofs.OmapProofs Proofs.SortProofs Pro
 Import ListNotations.
 Open Scope Z_scope.
 
-Definition tbound (s : sys) : Prop :=
-  (forall e, In e (s_univ s) -> 0 < e_time e <= Z.of_nat (length (s_univ s))) /\
-  (forall r l, nth_error (s_logs s) r = Some l -> 0 <= l_time l <= Z.of_nat (length (s_univ s))).
+(* A replica may be opened with a clock of its own (LogOptions.Clock, [ONew]'s last argument): the
+   bound is the largest such seed plus the number of entries ever appended. *)
+Definition seed_of (o : op) : Z := match o with ONew _ _ _ _ t0 => t0 | _ => 0 end.
+Definition max_seed (ops : list op) : Z := fold_right (fun o m => Z.max (seed_of o) m) 0 ops.
+Definition hist_bound (ops : list op) : Z := max_seed ops + Z.of_nat (length ops).
+
+Lemma max_seed_nonneg ops : 0 <= max_seed ops.
+Proof. induction ops as [|o ops IH]; cbn [max_seed fold_right]; [lia|]. fold (max_seed ops). lia. Qed.
+
+Lemma max_seed_bounds ops : Forall (fun o => seed_of o <= max_seed ops) ops.
+Proof.
+  induction ops as [|o ops IH]; cbn [max_seed fold_right]; constructor; [lia|].
+  eapply Forall_impl; [|exact IH]. cbn. intros a Ha. fold (max_seed ops). lia.
+Qed.
+
+Lemma max_seed_app a b : max_seed (a ++ b) = Z.max (max_seed a) (max_seed b).
+Proof.
+  pose proof (max_seed_nonneg b) as Hb. unfold max_seed in *.
+  induction a as [|o a IH]; cbn [app fold_right]; lia.
+Qed.
+
+Lemma hist_bound_app_l a b : hist_bound a <= hist_bound (a ++ b).
+Proof. unfold hist_bound. rewrite max_seed_app, app_length. lia. Qed.
+
+(* histories that open every replica without a clock: the bound is the number of operations *)
+Lemma hist_bound_unseeded ops : Forall (fun o => seed_of o = 0) ops -> hist_bound ops = Z.of_nat (length ops).
+Proof.
+  intros H. unfold hist_bound. replace (max_seed ops) with 0; [lia|].
+  induction H as [|o ops Ho _ IH]; cbn [max_seed fold_right]; [reflexivity|]. fold (max_seed ops). lia.
+Qed.
+
+Definition tbound (B : Z) (s : sys) : Prop :=
+  (forall e, In e (s_univ s) -> 0 < e_time e <= (B + Z.of_nat (length (s_univ s)))) /\
+  (forall r l, nth_error (s_logs s) r = Some l -> 0 <= l_time l <= (B + Z.of_nat (length (s_univ s)))).
 
 Lemma heads_in_U U l e : linv U l -> In e (oslice (l_heads l)) -> In e U.
 Proof.
@@ -31,27 +62,27 @@ Proof.
   destruct (values _); intros H; injection H as <- _; cbn; auto.
 Qed.
 
-Theorem tbound_step s o : sinv s -> wf_step s o -> tbound s -> tbound (fst (step s o)).
+Theorem tbound_step B s o : 0 <= B -> seed_of o <= B -> sinv s -> wf_step s o -> tbound B s -> tbound B (fst (step s o)).
 Proof.
-  intros SI W [TU TL]. pose proof (sinv_step s o SI W) as SI'. destruct SI as [UO IL].
-  destruct o as [id key sf deny|r payload pc h|r src size|r key|r mh|r io|r payload pc h|r]; cbn [step].
+  intros HB HS SI W [TU TL]. pose proof (sinv_step s o SI W) as SI'. destruct SI as [UO IL].
+  destruct o as [id key sf deny t0|r payload pc h|r src size|r key|r mh|r io|r payload pc h|r]; cbn [step].
   - split; [exact TU|]. cbn [fst s_logs s_univ]. intros r l H.
     destruct (Nat.lt_ge_cases r (length (s_logs s))) as [Hl|Hl].
     + rewrite nth_error_app1 in H by assumption. eauto.
     + rewrite nth_error_app2 in H by assumption. destruct (r - length (s_logs s))%nat as [|n]; cbn in H.
-      * injection H as <-. cbn. lia.
+      * injection H as <-. cbn in *. lia.
       * destruct n; discriminate.
   - destruct (nth_error (s_logs s) r) as [l|] eqn:L; [|split; auto].
     unfold append. destruct (append_entry l payload pc h) as [e|] eqn:AE.
-    + assert (Ht : 0 < e_time e <= Z.of_nat (length (s_univ s)) + 1).
+    + assert (Ht : 0 < e_time e <= (B + Z.of_nat (length (s_univ s))) + 1).
       { rewrite (ae_time l payload pc h e AE). destruct (TL r l L).
-        assert (max_time (oslice (sorted_heads l)) 0 <= Z.of_nat (length (s_univ s))).
+        assert (max_time (oslice (sorted_heads l)) 0 <= (B + Z.of_nat (length (s_univ s)))).
         { apply max_time_bound; [lia|]. intros x Hx. apply In_oslice in Hx. destruct Hx as [k Hx].
           apply sorted_heads_In in Hx; [|apply (li_heads_nodup _ _ (IL r l L))|apply (heads_well_keyed _ _ (IL r l L))].
           apply TU. eapply heads_in_U; [apply (IL r l L)|]. apply In_oslice. eauto. }
         pose proof (max_time_ge (oslice (sorted_heads l)) 0). lia. }
       assert (X : forall l', l_time l' = e_time e \/ l_time l' = l_time l ->
-                tbound (mkSys (set_nth r l' (s_logs s)) (s_univ s ++ [e]) (add_block (s_store s) h (e_next e ++ e_refs e)))).
+                tbound B (mkSys (set_nth r l' (s_logs s)) (s_univ s ++ [e]) (add_block (s_store s) h (e_next e ++ e_refs e)))).
       { intros l' Hl'. split; cbn [s_univ s_logs]; rewrite app_length; cbn [length].
         - intros x Hx. rewrite in_app_iff in Hx. cbn [In] in Hx. destruct Hx as [Hx|[<-|[]]]; [specialize (TU x Hx)|]; lia.
         - intros r' l'' H. rewrite nth_error_set_nth, L in H. destruct (Nat.eqb r r').
@@ -67,14 +98,14 @@ Proof.
     destruct (Nat.eqb r r'); [|eauto]. injection H as <-.
     pose proof (join_linv (s_univ s) l o (Nat.eqb r src) size l' out UO (IL r l L) (IL src o O) W J) as Il'.
     destruct (TL r l L). destruct (join_time _ _ _ _ _ _ J) as [->| ->]; [lia|].
-    pose proof (max_time_heads_bound (s_univ s) l' 0 (Z.of_nat (length (s_univ s))) Il'
+    pose proof (max_time_heads_bound (s_univ s) l' 0 ((B + Z.of_nat (length (s_univ s)))) Il'
                   (fun e He => proj2 (TU e He)) ltac:(lia)).
     pose proof (max_time_ge (oslice (l_heads l')) 0). lia.
   - destruct (nth_error (s_logs s) r) as [l|] eqn:L; [|split; auto]. cbn [fst].
     split; [exact TU|]. cbn [s_logs s_univ]. intros r' l' H. rewrite nth_error_set_nth, L in H.
     destruct (Nat.eqb r r'); [|eauto]. injection H as <-. cbn [set_identity l_time].
     destruct (TL r l L).
-    pose proof (max_time_heads_bound (s_univ s) l (l_time l) (Z.of_nat (length (s_univ s))) (IL r l L)
+    pose proof (max_time_heads_bound (s_univ s) l (l_time l) ((B + Z.of_nat (length (s_univ s)))) (IL r l L)
                   (fun e He => proj2 (TU e He)) ltac:(lia)).
     pose proof (max_time_ge (oslice (l_heads l)) (l_time l)). lia.
   - destruct (nth_error (s_logs s) r) as [l|] eqn:L; [|split; auto].
@@ -83,9 +114,9 @@ Proof.
     destruct (iterator l io) as [[es c]| |]; split; auto.
   - destruct (nth_error (s_logs s) r) as [l|] eqn:L; [|split; auto].
     destruct (append_entry l payload pc h) as [e|] eqn:AE; [|split; auto].
-    assert (Ht : 0 < e_time e <= Z.of_nat (length (s_univ s)) + 1).
+    assert (Ht : 0 < e_time e <= (B + Z.of_nat (length (s_univ s))) + 1).
     { rewrite (ae_time l payload pc h e AE). destruct (TL r l L).
-      assert (max_time (oslice (sorted_heads l)) 0 <= Z.of_nat (length (s_univ s))).
+      assert (max_time (oslice (sorted_heads l)) 0 <= (B + Z.of_nat (length (s_univ s)))).
       { apply max_time_bound; [lia|]. intros x Hx. apply In_oslice in Hx. destruct Hx as [k Hx].
         apply sorted_heads_In in Hx; [|apply (li_heads_nodup _ _ (IL r l L))|apply (heads_well_keyed _ _ (IL r l L))].
         apply TU. eapply heads_in_U; [apply (IL r l L)|]. apply In_oslice. eauto. }
@@ -98,22 +129,24 @@ Proof.
   - split; auto.
 Qed.
 
-Theorem tbound_run_from ops : forall s, sinv s -> wf_from s ops -> tbound s -> tbound (run_from s ops).
+Theorem tbound_run_from B ops : 0 <= B -> Forall (fun o => seed_of o <= B) ops ->
+  forall s, sinv s -> wf_from s ops -> tbound B s -> tbound B (run_from s ops).
 Proof.
-  induction ops as [|o ops IH]; intros s SI W T; cbn [run_from fold_left]; [exact T|].
-  destruct W as [W1 W2]. apply IH; [now apply sinv_step|exact W2|now apply tbound_step].
+  intros HB HS. induction ops as [|o ops IH]; intros s SI W T; cbn [run_from fold_left]; [exact T|].
+  inversion HS; subst.
+  destruct W as [W1 W2]. apply IH; [assumption|now apply sinv_step|exact W2|now apply tbound_step].
 Qed.
 
-Theorem tbound_run ops : wf ops -> tbound (run ops).
+Theorem tbound_run ops : wf ops -> tbound (max_seed ops) (run ops).
 Proof.
-  intros W. apply tbound_run_from; [apply sinv_empty|exact W|].
+  intros W. apply tbound_run_from; [apply max_seed_nonneg|apply max_seed_bounds|apply sinv_empty|exact W|].
   split; [intros e []|]. intros [|r] l H; discriminate.
 Qed.
 
 (* the universe grows by at most one entry per operation *)
 Lemma univ_length_step s o : (length (s_univ (fst (step s o))) <= S (length (s_univ s)))%nat.
 Proof.
-  destruct o as [id key sf deny|r payload pc h|r src size|r key|r mh|r io|r payload pc h|r]; cbn [step]; cbn [fst s_univ]; try lia.
+  destruct o as [id key sf deny t0|r payload pc h|r src size|r key|r mh|r io|r payload pc h|r]; cbn [step]; cbn [fst s_univ]; try lia.
   - destruct (nth_error (s_logs s) r) as [l|]; [|cbn; lia].
     destruct (append l payload pc h) as [l' [e|[]|]]; cbn [fst s_univ]; rewrite ?app_length; cbn [length]; try lia.
     destruct (append_entry l payload pc h); cbn [fst s_univ]; rewrite ?app_length; cbn [length]; lia.
@@ -135,11 +168,11 @@ Qed.
 
 (* hence: in any history of fewer than 2^63 operations all times are in the int64 range *)
 Theorem times_in_range ops r l :
-  wf ops -> Z.of_nat (length ops) < two63 -> nth_error (s_logs (run ops)) r = Some l ->
+  wf ops -> hist_bound ops < two63 -> nth_error (s_logs (run ops)) r = Some l ->
   forall e, In e (ents l) -> int64_range (e_time e).
 Proof.
   intros W Hlen L e He. destruct (tbound_run ops W) as [TU _]. destruct (sinv_run ops W) as [_ IL].
   destruct (linv_entry _ _ _ (IL r l L) He) as [_ HU]. specialize (TU e HU).
   pose proof (univ_length_run_from ops empty_sys). unfold run in *. cbn [empty_sys s_univ length] in H.
-  unfold int64_range, two63 in *. lia.
+  pose proof (max_seed_nonneg ops). unfold hist_bound, int64_range, two63 in *. lia.
 Qed.
